@@ -285,6 +285,9 @@ def run(tier):
     # (d') '!name': what scan_tag_handle read before it turned out not to be a handle is put back in front of the suffix
     from . import taghead
     rep.floor("head lengths for which the copy of the tag head is tabulated", taghead.check(rep, F), 5)
+    # (d'') the alphabets of tag text
+    from . import charclass
+    rep.floor("character classes compared with their productions", charclass.check(rep, F, ["is_word_char", "is_uri_char", "is_tag_char", "is_hex"]), 3)
     # ... and no '%' reaches tag text undecoded: in the functions that call the decoder, a character copied from the cursor is never '%'
     # (E1 pass B: the class window at each push site)
     from . import classdom
